@@ -42,7 +42,115 @@ func TestC11(t *testing.T) {
 		if rec.Mine(c + 1) {
 			noQuorum(rec, c)
 		}
+		if rec.Mine(c + 2) {
+			unloadedWhilePending(rec, c)
+		}
 	}
+}
+
+// Writes that raft has accepted but cannot commit (the only other replica is down) are still waiting for their
+// outcome when the replica is unloaded - its dataset is deleted through the membership-and-catalogue group, which
+// still has a quorum. They were never committed or applied: each must return an error.
+func unloadedWhilePending(rec *mon.Recorder, c int) {
+	desc := fmt.Sprintf("unloaded-while-pending case=%d nodes=3 partitions=1 replication=2", c)
+	rec.Current(desc)
+	cl := sim.New(sim.Options{Nodes: 3, Dir: os.Getenv("VERIF_SCRATCH") + fmt.Sprintf("/c11u-%d", c), TickEvery: 10 * time.Millisecond, Seed: rec.Seed() + int64(c)})
+	defer cl.Close()
+	if err := cl.Start(); err != nil {
+		rec.Inconclusive(desc + ": cluster start: " + err.Error())
+		return
+	}
+	dsId, meta, err := cl.CreateDataset(0, 3, 1, 2, pb.Space_Euclidean)
+	if err != nil {
+		rec.Inconclusive(desc + ": create dataset: " + err.Error())
+		return
+	}
+	pid := uuid.FromBytesOrNil(meta.Partitions[0].Id)
+	ctx := context.Background()
+	replicas := map[uint64]bool{}
+	for _, id := range meta.Partitions[0].NodeIds {
+		replicas[id] = true
+	}
+	var third *sim.Node
+	for _, n := range cl.Nodes {
+		if !replicas[n.Id] {
+			third = n
+		}
+	}
+	if third == nil || len(replicas) != 2 {
+		rec.Inconclusive(desc + ": unexpected placement")
+		return
+	}
+	for i := 0; i < 3; i++ {
+		if err := third.Dataset(dsId).Insert(ctx, hx.Id(c*1000+i), []float32{1, 2, 3}, nil); err != nil {
+			rec.Inconclusive(desc + ": setup insert: " + err.Error())
+			return
+		}
+	}
+	var leader *sim.Node
+	cl.WaitFor(10*time.Second, func() bool {
+		for _, n := range cl.Nodes {
+			if g := n.PartitionRaft(dsId, pid); g != nil && g.VerifStatus().RaftState.String() == "StateLeader" {
+				leader = n
+				return true
+			}
+		}
+		return false
+	})
+	if leader == nil {
+		rec.Inconclusive(desc + ": no partition leader")
+		return
+	}
+	var other *sim.Node
+	for _, n := range cl.Nodes {
+		if replicas[n.Id] && n != leader {
+			other = n
+		}
+	}
+	cl.Crash(other.Idx)
+	cl.Teardown(other.Idx)
+	replay := map[string]interface{}{"case": c, "seed": rec.Seed(), "desc": desc, "leader": leader.Id, "down": other.Id}
+	d := leader.Dataset(dsId)
+	var wg sync.WaitGroup
+	for k, op := range []string{"insert", "update", "remove"} {
+		wg.Add(1)
+		go func(k int, op string) {
+			defer wg.Done()
+			id := hx.Id(c*1000 + 100 + k)
+			if op != "insert" {
+				id = hx.Id(c*1000 + k%3)
+			}
+			cctx, cancel := context.WithTimeout(ctx, 12*time.Second)
+			defer cancel()
+			var err error
+			func() {
+				defer func() {
+					if p := recover(); p != nil {
+						err = fmt.Errorf("panic: %v", p)
+					}
+				}()
+				switch op {
+				case "insert":
+					err = d.Insert(cctx, id, []float32{9, 9, 9}, nil)
+				case "update":
+					err = d.Update(cctx, id, []float32{8, 8, 8}, nil)
+				default:
+					err = d.Remove(cctx, id)
+				}
+			}()
+			rec.Count("writes_pending_when_the_replica_was_unloaded", 1)
+			if err == nil {
+				rec.Violation("ack:success-after-replica-unloaded:"+op, fmt.Sprintf("%s: %s on the partition leader (node %d) was accepted by raft but could not be committed (node %d is down); the replica was unloaded while the caller waited, and the call returned success", desc, op, leader.Id, other.Id), replay)
+			}
+		}(k, op)
+	}
+	time.Sleep(400 * time.Millisecond) // the writes are proposed and wait for a commit that cannot come
+	var delErr error
+	if !cl.Guard(20*time.Second, func() { delErr = third.DM().Delete(ctx, dsId) }) || delErr != nil {
+		rec.Inconclusive(fmt.Sprintf("%s: the dataset could not be deleted: %v", desc, delErr))
+	}
+	wg.Wait()
+	rec.Case(mon.Digest(desc), true)
 }
 
 // "if the proposal is not applied in time it returns an error": the partition
